@@ -22,7 +22,7 @@ LEVEL = "exploration"
 VERSIONS = ["absent", 0, 1, 2, 3, 10]
 LAYOUTS = ["v1", "v2"]
 NAMES = ["None", "plain_name", "name with spaces", "p, q = r # [x]"]
-WORKSPACES = ["default", "ws", "a/b", "collide"]
+WORKSPACES = ["default", "ws", "a/b", "collide", "data/workspace"]
 EXTRAS = [(False, False), (True, False), (False, True), (True, True)]
 JOBS = [0, 1, 3]
 SUPPORTED = 2
@@ -35,7 +35,8 @@ def build(root, version, layout, name, wsmode, cache, history, njobs):
     from signac._vendor import configobj
 
     os.makedirs(root)
-    wsrel = {"default": "workspace", "ws": "ws", "a/b": os.path.join("a", "b"), "collide": "ws"}[wsmode]
+    wsrel = {"default": "workspace", "ws": "ws", "a/b": os.path.join("a", "b"), "collide": "ws",
+             "data/workspace": os.path.join("data", "workspace")}[wsmode]
     if layout == "v2":
         wsrel = "workspace"
     # jobs are produced by signac itself in a side project and moved into place
@@ -108,6 +109,15 @@ def evaluate(item):
         return {"skip": "a v1 layout declaring the current schema version is an inconsistent configuration", "viol": [], "n": 0}
     with scratch.fresh("c20") as base:
         root = os.path.join(base, "proj")
+        # the directory is looked at while it is still empty (nothing there: LookupError); whatever signac remembers from
+        # that must not matter once a project has appeared in it
+        os.makedirs(root)
+        for probe in (lambda: signac.get_project(root), lambda: signac.get_project(root, search=False), lambda: signac.Project(root)):
+            try:
+                probe()
+            except LookupError:
+                pass
+        os.rmdir(root)
         content, wsrel = build(root, version, layout, name, wsmode, cache, history, njobs)
         before = canon.snapshot(root)
         os.chdir(base)
